@@ -139,6 +139,11 @@ class Interp:
       sub, consts = _sub_jaxpr(params)
       n = len(sub.invars)
       return self.eval(sub, consts, *ins[len(ins) - n:])
+    if name == 'linear_call':
+      # jax.custom_derivatives.linear_call: the program that runs is `callee` (after transposition it IS the user-supplied transpose), applied to
+      # (callee constants, residuals, linear operands); nothing is assumed about the two functions being transposes of each other
+      callee = params['callee']
+      return self.eval(callee, [], *ins)
     if name == 'scan':
       return self.scan(params, ins)
     if name == 'while':
